@@ -210,10 +210,12 @@ def C08(tier):
         jobs.append(hj("h_sema", 12 * m, first=i * 12 * m))
     jobs += [hj("h_sema", 6 * m, first=2000, ncpu=1, scale=40), hj("h_sema", 8 * m, first=2100, ncpu=2, scale=60), hj("h_sema", 8 * m, first=2200, ncpu=4)]
     jobs += [hj("h_sema", 4 * m, first=3000, flavor="asan", scale=40, timeout=600)]
+    jobs += [hj("h_sema", 6 * m, first=4000, mode="clockgap"), hj("h_sema", 4 * m, first=4100, mode="clockgap", ncpu=2)]
     if tier == "thorough":
         for t in jobs:
             t.timeout = 1800
     floors = {
+        "clockgap_delays_injected": 200,
         "waits": 300000 * (1 if tier == "quick" else 8),
         "timeouts": 20000,
         "success_after_deadline": 50,   # timed waits satisfied after their deadline: the timeout raced a signal
@@ -341,4 +343,48 @@ def C19(tier):
     return jobs, floors, rule
 
 
-PROPS = {"C01": C01, "C02": C02, "C03": C03, "C04": C04, "C05": C05, "C06": C06, "C07": C07, "C08": C08, "C09": C09, "C10": C10, "C19": C19}
+def C11(tier):
+    m = 1 if tier == "quick" else 12
+    jobs = []
+    for i in range(6):
+        jobs.append(hj("h_timer", 5 * m, first=i * 5 * m))
+    jobs += [hj("h_timer", 3 * m, first=2000, ncpu=1, scale=50), hj("h_timer", 4 * m, first=2100, ncpu=2, scale=60), hj("h_timer", 4 * m, first=2200, ncpu=4)]
+    jobs += [hj("h_timer", 3 * m, first=3000, flavor="asan", scale=50, timeout=600), hj("h_timer", 3 * m, first=3100, flavor="asan", scale=50, timeout=600)]
+    if tier == "thorough":
+        jobs += [hj("h_timer", 20 * m, first=9000, flavor="dbg", timeout=1800)]
+        for t in jobs:
+            t.timeout = 1800
+    floors = {
+        "timers": 2000 * (1 if tier == "quick" else 8),
+        "timer_fires": 15000 * (1 if tier == "quick" else 8),
+        "rearms_from_handler": 1000,
+        "dispatch_after_blocks": 2000,
+        "heap_validations": 30000,
+        "heap_segment_grows": 200,
+        "heap_segment_shrinks": 200,
+        "heap_arm_at_root": 1000,
+        "heap_arm_below_root": 10000,
+        "heap_disarms": 5000,
+    }
+    rule = ("one case = one trial: a population of 1-500 timer sources on the uptime / monotonic / wall clocks (starts in the past, "
+            "now, +10us..+250ms, DISPATCH_TIME_FOREVER or one hour ahead; one-shot or 0.1-30 ms intervals; random leeway; STRICT or "
+            "not; serial / concurrent / global targets) plus 10-200 dispatch_after blocks, with histories of set_timer from the "
+            "handler, suspend from the handler + resume elsewhere, foreign suspend/resume and cancel while others fire, under a "
+            "perturbation profile and affinity mask; oracle: clock reading in every handler >= decoded start (zero tolerance), "
+            "cumulative get_data <= interval boundaries passed, after-blocks exactly once and not early, every armed timer fires "
+            "(stuck witness otherwise), never-timers never fire, heap validator (hook H2) after every arm/disarm; non-trivial = "
+            "population of at least 9 timers (multi-level heap)")
+    opts = {"assumptions": ["the wall clock (CLOCK_REALTIME) is not stepped during the run"]}
+    return jobs, floors, rule, opts
+
+
+PROPS = {"C01": C01, "C02": C02, "C03": C03, "C04": C04, "C05": C05, "C06": C06, "C07": C07, "C08": C08, "C09": C09, "C10": C10, "C11": C11, "C19": C19}
+
+
+# specs kept in their own files (vf/p_<ID>.py defines spec(tier))
+import importlib  # noqa: E402
+import os as _os  # noqa: E402
+for _f in sorted(_os.listdir(_os.path.dirname(_os.path.abspath(__file__)))):
+    if _f.startswith("p_C") and _f.endswith(".py"):
+        _pid = _f[2:-3]
+        PROPS[_pid] = importlib.import_module("." + _f[:-3], __package__).spec
